@@ -105,7 +105,9 @@ def flow_rules(ctx, facts, b, tree):
         ctx.ob("FLOW", "checks-resharded-tags", comp1, "the collection checked is the tag component of reshard_aad's result" if comp1 else f"the collection checked is not reshard_aad(..).1: {s[:160]}", site_of(b, cd[0][0]))
     # tag and decrypt on the same report
     found = False
-    for tb in tree:
+    # (decrypt + tag may sit in a helper fn of the runner's module that the stream adapter calls per report)
+    helpers = [facts.bodies[fn] for x in tree for _, t in x.calls() for fn in [F.callee(t)[0] or ""] if fn in facts.bodies and fn.startswith("query::runner::hybrid::") and facts.bodies[fn] not in tree]
+    for tb in list(tree) + helpers:
         fu = flow.find_calls(tb, re.compile(r"UniqueTag::from_unique_bytes$"))
         de = flow.find_calls(tb, re.compile(r"EncryptedHybridReport::<BK, V>::decrypt$|::decrypt$"))
         if fu and de:
